@@ -357,7 +357,7 @@ def _supervise(jobs, procs):
             rx, tx = mp.Pipe(duplex=False)
             counter = mp.Value("q", 0, lock=False)
             path = os.path.join(wd, "beat-%d.json" % i)
-            pr = mp.Process(target=_child, args=(job, tx, path, counter), daemon=True)
+            pr = mp.Process(target=_child, args=(job, tx, path, counter), daemon=False)
             pr.start()
             tx.close()
             running[i] = dict(p=pr, rx=rx, counter=counter, path=path, last=-1, cpu0=0.0, job=job)
